@@ -24,6 +24,7 @@ TOL_LSF_SIMPSON = 5e-7
 E_MIN, E_MAX = 100000.0, 900000.0
 LAT_MIN, LAT_MAX = -80.0, 84.0
 ALARM_S = 10
+MAX_HANGS = 3      # per chunk
 
 
 class Hang(Exception):
@@ -92,13 +93,19 @@ def gen_case(rng):
         dz = rng.choice([-1, 1])
         if cross and not 1 <= z1 + dz <= 60:
             dz = -dz
-        edge = rng.random() < 0.06   # line ending within metres of the equator
+        r = rng.random()
+        # 'equator': line ending within metres of the equator; 'lat-limit': ending within metres of 84 N / 80 S
+        edge = 'equator' if r < 0.06 else 'lat-limit' if r < 0.075 else ''
+        if edge == 'lat-limit':
+            cross = False
         if hemi == 'north':
             lat = gens.pick(rng, [1e-6, 0.001, 83.9, 45.0], 0.0, LAT_MAX, 0.06)
         else:
             lat = gens.pick(rng, [-1e-6, -0.001, -79.9, -45.0], LAT_MIN, 0.0, 0.06)
-        if edge:
+        if edge == 'equator':
             lat = math.copysign(rng.uniform(0.0, 0.9), lat)
+        elif edge == 'lat-limit':   # this point becomes point 2 (swapped below)
+            lat = (LAT_MAX if hemi == 'north' else LAT_MIN) * (1 - 10 ** rng.uniform(-11, -5.5))
         nu_cos = K.grs80.semimaj * math.cos(math.radians(lat)) * 0.9996
         if cross:
             w = math.radians(6) * nu_cos
@@ -117,13 +124,13 @@ def gen_case(rng):
             continue
         if h1.lower() != hemi:
             continue
-        if rng.random() < 0.8:
+        if rng.random() < 0.8 and edge != 'lat-limit':
             e1, n1 = e1 + rng.uniform(-0.5, 0.5), n1 + rng.uniform(-0.5, 0.5)
         length = 10 ** rng.uniform(0, 5) if rng.random() < 0.8 else rng.uniform(1, 1e5)
         th = rng.choice([0.0, 90.0, 180.0, 270.0, 45.0]) if rng.random() < 0.12 else rng.uniform(0, 360)
         e2 = e1 + length * math.sin(math.radians(th))
         n2 = n1 + length * math.cos(math.radians(th))
-        if edge:
+        if edge == 'equator':
             # put point 2 a few metres from the equator, keep direction and length of the line
             n2 = (1e7 - 10 ** rng.uniform(-3, 1.69)) if hemi == 'south' else 10 ** rng.uniform(-3, 1.69)
             dn = n2 - n1
@@ -144,6 +151,8 @@ def gen_case(rng):
             continue
         if (g1[0] < 0) != (hemi == 'south') or (g2[0] < 0) != (hemi == 'south') or g1[0] == 0 or g2[0] == 0:
             continue
+        if edge == 'lat-limit':
+            e1, n1, e2, n2 = e2, n2, e1, n1
         z2, e2z, n2z = z1, e2, n2
         if cross:
             z2 = z1 + dz
@@ -193,7 +202,10 @@ def check_case(p, inp):
     if not finite_tuple(got, 4):
         p.violation('inv-utm-definition', 'inv_definition', inp, repr(got), 'four finite numbers', call_inv)
         return
-    exp = compose(z1, e1, n1, z2, e2, n2, hemi, ell)
+    ok, exp = p.guarded('inv-utm-definition:parts-raise', 'inv_definition', inp,
+                        lambda: compose(z1, e1, n1, z2, e2, n2, hemi, ell), call_inv)
+    if not ok:
+        return
     if not close4(got, exp):
         key = 'inv-utm-definition'
         if hemi == 'north' and close4(got, compose_or_none(z1, e1, n1, z2, e2, n2, 'south', ell)):
@@ -221,16 +233,22 @@ def check_case(p, inp):
                     call_inv)
 
     # ---- (c) line scale factor ------------------------------------------------------------------
-    if cross:
-        g2 = C.grid2geo(z2, e2, n2, hemi, ell)
-        _, _, e2p, n2p, _, _ = C.geo2grid(g2[0], g2[1], z1, ell)
-    else:
-        e2p, n2p = e2, n2
+    def zone1_line():
+        if cross:
+            g2 = C.grid2geo(z2, e2, n2, hemi, ell)
+            e2p, n2p = C.geo2grid(g2[0], g2[1], z1, ell)[2:4]
+        else:
+            e2p, n2p = e2, n2
+        ks = [C.grid2geo(z1, e1 + (e2p - e1) * i / 8, n1 + (n2p - n1) * i / 8, hemi, ell)[2] for i in range(9)]
+        return e2p, n2p, ks, C.grid2geo(z1, e2p, n2p, hemi, ell)[0]
+    call_lsf = f'line_sf({z1}, {e1!r}, {n1!r}, {z2}, {e2!r}, {n2!r}, {hemi!r}, Ellipsoid({ell.semimaj!r}, {ell.inversef!r}))'
+    ok, zl = p.guarded('lsf-raises:conversion', 'lsf', inp, zone1_line, call_lsf)
+    if not ok:
+        return
+    e2p, n2p, ks, lat2p = zl
     p.case('lsf:' + tag, inp, True)
-    ks = [C.grid2geo(z1, e1 + (e2p - e1) * i / 8, n1 + (n2p - n1) * i / 8, hemi, ell)[2] for i in range(9)]
     lo, hi = min(ks), max(ks)
     simpson = (ks[0] + 4 * ks[4] + ks[8]) / 6
-    call_lsf = f'line_sf({z1}, {e1!r}, {n1!r}, {z2}, {e2!r}, {n2!r}, {hemi!r}, Ellipsoid({ell.semimaj!r}, {ell.inversef!r}))'
     ok, lsf_own = p.guarded('lsf-raises', 'lsf', inp, lambda: G.line_sf(z1, e1, n1, z2, e2, n2, hemi, ell), call_lsf)
     if ok:
         track(p, 'lsf_outside_range', max(lo - lsf_own, lsf_own - hi, 0.0))
@@ -246,19 +264,29 @@ def check_case(p, inp):
     # point 2 (plane radiation; first line scale factor from the default hemisphere/ellipsoid) can fall on the
     # other side of the equator, where its hemisphere bookkeeping breaks
     deq = n2p if hemi == 'north' else 1e7 - n2p
-    at_eq = ':ends-at-equator' if deq < 50.0 else ''
+    dlim = (LAT_MAX - lat2p if hemi == 'north' else lat2p - LAT_MIN) * 111000.0
+    at_eq = ':ends-at-equator' if deq < 50.0 else ':ends-at-latitude-limit' if dlim < 50.0 else ''
     key = ('dir-utm-cross-zone' if cross else 'dir-utm-inverts') + at_eq
     p.case(clause + ':' + tag + at_eq, inp, True)
     call_dir = f'vincdir_utm({z1}, {e1!r}, {n1!r}, {g12!r}, {gd!r}{xs})  # bearing, distance = {call_inv}[1], [0]'
+    if getattr(p, 'hangs', 0) >= MAX_HANGS:
+        p.stats.add('dir_skipped_after_%d_hangs' % MAX_HANGS)   # keep the probe inside its time budget
+        return
     try:
         res = with_alarm(lambda: G.vincdir_utm(z1, e1, n1, g12, gd, *xa))
     except Hang:
+        p.hangs = getattr(p, 'hangs', 0) + 1
         p.violation('vincdir_utm:no-convergence', clause, inp, f'no result after {ALARM_S} s', [z1, e2p, n2p], call_dir)
         return
     except Exception as e:  # noqa
         # the routine's first guess of point 2 is the PLANE radiation; it can leave the grid although point 2 does not
         est_n = n1 + gd * math.cos(math.radians(g12))
-        k = 'vincdir_utm:raises-near-equator' if (at_eq and not 0 <= est_n <= 1e7) else 'dir-utm-raises' + at_eq
+        if at_eq == ':ends-at-equator' and not 0 <= est_n <= 1e7:
+            k = 'vincdir_utm:raises-near-equator'
+        elif at_eq == ':ends-at-latitude-limit' and 'Latitude' in str(e):
+            k = 'vincdir_utm:raises-at-latitude-limit'
+        else:
+            k = 'dir-utm-raises' + at_eq
         p.violation(k, clause, inp, f'{type(e).__name__}: {e}', {'zone, east2, north2': [z1, e2p, n2p]}, call_dir)
         return
     if not (isinstance(res, tuple) and len(res) == 5 and all(isinstance(v, (int, float)) and math.isfinite(v) for v in res)):
@@ -268,16 +296,24 @@ def check_case(p, inp):
     miss = math.hypot(er - e2p, nr - n2p)
     track(p, clause + '_miss_m' + at_eq, miss)
     if not (zr == z1 and miss <= TOL_POINT_M):
+        # which problem did the routine solve? (it missed the one posed; if its point answers the same
+        # bearing/distance question in the other hemisphere or on the default ellipsoid, that argument was ignored)
         k = key
-        try:
-            if hemi == 'north' and with_alarm(lambda: G.vincdir_utm(z1, e1, n1, g12, gd, 'south', ell))[:3] == res[:3]:
-                k = 'hemisphere-arg'
-            elif ell is not K.grs80 and with_alarm(lambda: G.vincdir_utm(z1, e1, n1, g12, gd, hemi))[:3] == res[:3]:
-                k = 'ellipsoid-arg'
-        except Exception:  # noqa
-            pass
+        if hemi == 'north' and solves(z1, e1, n1, er, nr, g12, gd, 'south', ell):
+            k = 'hemisphere-arg'
+        elif ell is not K.grs80 and solves(z1, e1, n1, er, nr, g12, gd, hemi, K.grs80):
+            k = 'ellipsoid-arg'
         p.violation(k, clause, inp, {'zone': zr, 'east': er, 'north': nr, 'miss_m': miss},
                     {'zone': z1, 'east': e2p, 'north': n2p, 'miss_m': '<= 1e-3'}, call_dir)
+
+
+def solves(z1, e1, n1, er, nr, g12, gd, hemi, ell):
+    """does (er, nr) lie at grid bearing g12 and grid distance gd from point 1 for this hemisphere / ellipsoid?"""
+    try:
+        d, b12, _, _ = G.vincinv_utm(z1, e1, n1, z1, er, nr, hemi, ell)
+    except Exception:  # noqa
+        return False
+    return abs(d - gd) <= 1.5e-3 and abs((b12 - g12 + 180) % 360 - 180) * math.pi / 180 * gd <= 1.5e-3
 
 
 def compose_or_none(*a):
